@@ -39,6 +39,7 @@ def sea_cases(out: Outcome, rng, n_cases: int, lines, expect) -> None:
             continue
         # reproduce the tape
         np.random.seed(seed)
+        tape_ok = True
         for i, (X, y) in enumerate(data):
             u = np.random.uniform(low=0.0, high=10.0, size=(3,))
             r = np.random.random()
@@ -52,14 +53,17 @@ def sea_cases(out: Outcome, rng, n_cases: int, lines, expect) -> None:
             if int(y) not in (0, 1):
                 out.violation(f"SEA: label {y!r} of sample {i}", rep)
                 break
-            if not np.array_equal(u, X):
-                # HOW the generator consumes NumPy's stream (which calls, in which order) is the model's tie to this code, not a clause of the property
+            if tape_ok and not np.array_equal(u, X):
+                # HOW the generator consumes NumPy's stream (which calls, in which order) is the model's tie to this code, not a clause of the property; the
+                # property's own clauses (range, label rule) go on being checked for EVERY sample of the data set
+                tape_ok = False
                 out.mismatch(f"SEA: features of sample {i} are not the draws `uniform(size=3)` at the position of the global generator where the model reads them "
                              "(the generator consumes its random stream in another way than the model)", rep)
-                break
-            lines.append(f"sea label {block} {f2h(noise)} {f2h(X[0])} {f2h(X[1])} {f2h(r)} {coin}")
-            expect.append((str(int(y)), rep))
+            if tape_ok:
+                lines.append(f"sea label {block} {f2h(noise)} {f2h(X[0])} {f2h(X[1])} {f2h(r)} {coin}")
+                expect.append((str(int(y)), rep))
         else:
+          if tape_ok:
             # the whole dataset on the recorded draws through the generator model (`Synth2.seaDataset`): every label, and the tape consumed exactly
             np.random.seed(seed)
             floats, coins = [], []
